@@ -56,6 +56,8 @@ class Tape:
         self.log = []
         self.notes = []
         self.overrun = False
+        self.dead = False
+        self.stop_exc = None
         self._cache = {}
 
     # -- primitive -----------------------------------------------------
@@ -90,9 +92,28 @@ class Tape:
             s = self._cache.get(key)
             if s is None:
                 s = self._cache[key] = _st().integers(lo, hi)
-            v = self._data.draw(s)
+            v = self._draw(s, lo if not (lo <= 0 <= hi) else 0)
         self.log.append(v)
         return v
+
+    def _draw(self, strategy, default):
+        """Draw from Hypothesis.  If the example has already been abandoned
+        (Hypothesis raised StopTest earlier and code under test is still
+        unwinding through a ``finally`` block that draws again), return a default
+        so that the original StopTest keeps propagating."""
+        if self.dead:
+            return default
+        try:
+            return self._data.draw(strategy)
+        except BaseException as e:
+            name = type(e).__name__
+            if name == "Frozen":
+                self.dead = True
+                return default
+            if name == "StopTest":
+                self.dead = True
+                self.stop_exc = e
+            raise
 
     def float(self, lo, hi):
         lo = float(lo)
@@ -113,7 +134,7 @@ class Tape:
                 s = self._cache[key] = _st().floats(
                     lo, hi, allow_nan=False, allow_infinity=False
                 )
-            v = self._data.draw(s)
+            v = self._draw(s, lo)
         self.log.append(v)
         return v
 
